@@ -65,6 +65,7 @@ type prepared struct {
 	feats     string
 	weight    int
 	modes     []bool // fixWhitespace settings to generate
+	opts      []string // table options forced by the shape's family (nil = rotation)
 }
 
 // replayCase is what a violation records.
@@ -155,15 +156,26 @@ func (p *prepared) decideModes() {
 	}
 }
 
-func (p *prepared) tm(name string, fix bool) string {
+func (p *prepared) tm(name string, fix bool, extra ...string) string {
 	if p.kind == "cfg" {
 		var opts []string
 		if fix {
 			opts = append(opts, "fixWhitespace = true")
 		}
+		opts = append(opts, extra...)
 		return p.cfg.ToTM([]gramenum.Input{{NT: p.cfg.T + 1, Eoi: true}}, gramenum.TMOpts{Name: name, Events: true, Space: true, Options: opts})
 	}
-	return p.g.TM(name, fix)
+	return p.g.TM(name, fix, extra...)
+}
+
+// tableOptions are table-construction options that must not change any reported event; they are
+// rotated over the generated parsers (deterministically, by sequence number within each
+// fixWhitespace mode), so every option set meets every grammar class without extra builds.
+var tableOptions = [][]string{
+	nil,
+	{"minimizeDFA = true"},
+	{"optimizeTables = true"},
+	{"minimizeDFA = true", "optimizeTables = true"},
 }
 
 // compiles runs the front end only; "" = accepted without conflicts.
@@ -198,6 +210,7 @@ type runner struct {
 	c       *core.Ctx
 	seq     int
 	pending []job
+	modeSeq [2]int // parsers requested so far without / with fixWhitespace (rotates tableOptions)
 	// evidence
 	specs       int
 	grammars    map[*prepared]bool
@@ -218,7 +231,17 @@ type job struct {
 func (r *runner) add(p *prepared, fix bool) {
 	r.seq++
 	name := fmt.Sprintf("g%05d", r.seq)
-	r.pending = append(r.pending, job{p: p, fix: fix, name: name, tm: p.tm(name, fix)})
+	k := 0
+	if fix {
+		k = 1
+	}
+	extra := p.opts
+	if extra == nil {
+		extra = tableOptions[r.modeSeq[k]%len(tableOptions)]
+		r.modeSeq[k]++
+	}
+	r.c.Add("parsers_requested_with:"+strings.Join(append([]string{"table-options"}, extra...), " "), 1)
+	r.pending = append(r.pending, job{p: p, fix: fix, name: name, tm: p.tm(name, fix, extra...)})
 	if len(r.pending) >= r.batchLimit {
 		r.flush()
 	}
@@ -362,7 +385,22 @@ func (r *runner) check(j job, out genharness.Outcome) {
 		rc.Expected = eventStrings(exp)
 		rc.Got = gotStrings(got)
 		rules := ruleText(p)
-		if j.fix && !hasActions {
+		callsFix := false
+		for name, content := range out.Files {
+			if strings.HasSuffix(name, "parser.go") && strings.Contains(content, "\tfixTrailingWS(lhs, stack") {
+				callsFix = true
+			}
+		}
+		if j.fix && callsFix && strings.Contains(j.tm, "minimizeDFA = true") {
+			var alt []extsem.Event
+			core.Guard(func() { alt = extsem.Events(cs.tree, in, false) })
+			if sameEvents(alt, got) {
+				c.Violate("fixWhitespace-ignored:minimizeDFA-reduces-untrimmed-rule-of-same-class",
+					fmt.Sprintf("fixWhitespace = true + minimizeDFA = true: the generated applyRule trims some rule, but on input %q the parser reduced a rule that is not trimmed: expected %s, got %s (= the ranges without fixWhitespace)\n%s", cs.text, eventsText(exp), strings.Join(rc.Got, " "), rules), rc)
+				continue
+			}
+		}
+		if j.fix && !hasActions && !callsFix {
 			var alt []extsem.Event
 			core.Guard(func() { alt = extsem.Events(cs.tree, in, false) })
 			if sameEvents(alt, got) {
@@ -606,7 +644,7 @@ func runExt(c *core.Ctx, r *runner, target, W int, feedCFG func() bool) {
 	}
 	// classes where range arithmetic is most delicate go first, so that a run that is cut short by
 	// the budget on a busy machine has seen them
-	first := []string{"fixWhitespace-matters:rule-level", "family:same-element-extracted-twice", "inner-part-ends-in-empty-symbol", "trailing-empty-symbol:annotated", "leading-empty-symbol", "order:nested-arrow-left-of-annotated-Y", "arrow:nested/d2", "arrow:list+", "arrow:empty-nested", "arrow:nested/nullable"}
+	first := []string{"fixWhitespace-matters:rule-level", famSameClass, "family:same-element-extracted-twice", "inner-part-ends-in-empty-symbol", "trailing-empty-symbol:annotated", "leading-empty-symbol", "order:nested-arrow-left-of-annotated-Y", "arrow:nested/d2", "arrow:list+", "arrow:empty-nested", "arrow:nested/nullable"}
 	var ordered []string
 	for _, f := range first {
 		if _, ok := byClass[f]; ok {
@@ -655,7 +693,10 @@ func runExt(c *core.Ctx, r *runner, target, W int, feedCFG func() bool) {
 				rejectedByCompiler[rejectClass(msg)]++
 				continue
 			}
-			p.nested, p.feats, p.weight = sh.nested, featureString(sh), sh.weight
+			p.nested, p.feats, p.weight, p.opts = sh.nested, featureString(sh), sh.weight, sh.opts
+			if sh.opts != nil {
+				p.modes = []bool{true, false} // the family is about fixWhitespace under forced table options
+			}
 			return p
 		}
 		return nil
